@@ -195,6 +195,10 @@ def check_hash(ctx):
                             continue
             if ok:
                 ctx.ok("C18.2", init.qualname, f"hash is a hashlib digest of the typechecker string: {short(v, 70)}")
+            elif isinstance(v, (ast.Name, ast.Subscript, ast.Attribute)) and not any(isinstance(c_, ast.Call) for c_ in ast.walk(v)):
+                # the digest was computed elsewhere (a helper that returns source and digest together) and arrives through a local / a field:
+                # where it comes from is not followed
+                raise AnalysisError(f"C18.2: self.hash is assigned `{norm(v)}`; how that value is computed is not followed")
             else:
                 bad_src = [norm(c.func) for c in ast.walk(v) if isinstance(c, ast.Call)]
                 ctx.bad("C18.2", init, st, f"self.hash is computed by {bad_src or norm(v)}, not by a hashlib digest of the typechecker string or a constant: "
@@ -299,6 +303,11 @@ def check_patch_extent(ctx):
                 for nm, c in executed:
                     ctx.bad("C18.3", meth, c, f"`{short(c, 50)}` runs module code while importlib's cache_from_source is patched: every module imported by the hooked "
                             "module (hooked or not) is cached under the instrumented tag without being instrumented, and is later reused when it is hooked")
+                if not io and not executed and (any(isinstance(y_, (ast.Yield, ast.YieldFrom)) for b_ in w.body for y_ in ast.walk(b_))
+                                                or any("contextmanager" in norm(d_) for d_ in meth.decorators)):
+                    # the `with patch(..)` lives in a generator context manager: what runs inside the patched region is whatever its users put
+                    # into *their* with-blocks
+                    raise AnalysisError(f"C18.3: the patch is applied by the context manager {meth.qualname} (`yield` inside `with patch(..)`); the region it covers at its use sites is not followed")
                 if not io and not executed:
                     ctx.bad("C18.3", meth, w, "the patched region does not contain the cache read/write of the module (super().get_code): the tag is never applied",
                             construct=f"with patch(...): {short(w.body[0], 60)}")
